@@ -652,6 +652,7 @@ def inline_helpers(tree, shape, keep=frozenset()):
                     if h.usable() and h.params and h.params[0] in ("self", "cls"):
                         cls_helpers_by_class.setdefault(st.name, {})[m.name] = h
     if not helpers and not cls_helpers_by_class:
+        _inline_closures(tree, pinned_fns, inlined)
         return inlined
     # helpers first get their own locals substituted (all their locals are new) and may call each other
     order = list(helpers.values()) + [h for d in cls_helpers_by_class.values() for h in d.values()]
@@ -669,6 +670,7 @@ def inline_helpers(tree, shape, keep=frozenset()):
                 changed = True
         if not changed:
             break
+    _inline_closures(tree, pinned_fns, inlined)
     # drop helpers that are no longer referenced
     def referenced(name, method):
         for n in ast.walk(tree):
@@ -687,6 +689,30 @@ def inline_helpers(tree, shape, keep=frozenset()):
             if name in inlined and not referenced(name, True) and name not in keep:
                 cdef.body.remove(h.fn)
     return inlined
+
+
+def _inline_closures(tree, pinned_fns, inlined):
+    """new nested functions (closures over the host's locals) called from their host are inlined like helpers: a closure
+    reads the host's variables at call time, which is exactly what the inlined body does"""
+    for q, host in functions_of(tree).items():
+        local = {}
+        for st in host.body:
+            if isinstance(st, ast.FunctionDef) and f"{q}.{st.name}" not in pinned_fns:
+                h = Helper(st)
+                if h.usable() and not any(isinstance(n, (ast.Nonlocal, ast.Global)) for n in ast.walk(st)):
+                    # names the closure assigns must not be host variables it is meant to update (that needs nonlocal anyway)
+                    local[st.name] = h
+        if not local:
+            continue
+        before = len(inlined)
+        for _round in range(3):
+            if not _inline_in_function(host, local, {}, inlined):
+                break
+        if len(inlined) > before:
+            for name, h in local.items():
+                still = any(isinstance(n, ast.Name) and n.id == name and isinstance(n.ctx, ast.Load) for n in _walk_fn(host))
+                if name in inlined[before:] and not still and h.fn in host.body:
+                    host.body.remove(h.fn)
 
 
 def _inline_in_function(fn, helpers, chelp, inlined):
